@@ -6,11 +6,74 @@ MODULE = "Feox.Props.C05"
 THEOREMS = ['Feox.C05.accept_part', 'Feox.C05.accepted_trace_part', 'Feox.C05.partition_after_any_history', 'Feox.C05.apply_part', 'Feox.C05.release_valid', 'Feox.C05.partition', 'Feox.C05.extents_disjoint_in_bounds', 'Feox.C05.no_cross_damage', 'Feox.C05.empty_is_fresh', 'Feox.C05.no_leak', 'Feox.Proto.TiledBy.partition', 'Feox.Proto.TiledBy.recs']
 
 
+def leftover_partition_stage(ctx, cov):
+    """the ownership partition right after a recovery of what a crash between a replacement's commit and the old
+    extent's retirement leaves (two intact generations of a key, in either order on the device): judged on the real
+    store's own report alone - the extents of the keys it indexed and the free runs it rebuilt must tile the data area,
+    and the usage counter must be the live total"""
+    import fmt_engine, re
+    ok, out = cargo_build(ctx, ["fmt"])
+    if not ok:
+        return
+    outs = fmt_engine.run_fmt(ctx, ["dupgen"], 6, ["workloads=%d" % (4 if ctx.tier == "quick" else 60), "mutations=8"])
+    n = bad = 0
+    for o in outs:
+        if "crash" in o:
+            violation(ctx, "fmt harness (two-generation devices) did not finish: " + o["crash"], o["crash"], tag="crash")
+            continue
+        for op, im in zip(o["ops"], o["impl"]):
+            if not op.startswith("fmt recover") or not im.startswith("ok "):
+                continue
+            m = re.search(r"^ok v=(\d+) .* disk=(\d+) .*live=\[([^\]]*)\] free=\[([^\]]*)\]", im)
+            path = op.split(" ")[2]
+            if not m or not os.path.exists(path):
+                continue
+            n += 1
+            v, disk = int(m.group(1)), int(m.group(2))
+            blocks = os.path.getsize(path) // 4096
+            hdr = 22 if v == 1 else 30
+            owner, why = {}, None
+            total = 0
+            for t in [t for t in m.group(3).split(",") if t]:
+                f = t.split(":")
+                k, vlen, sec = len(f[0]) // 2, int(f[3]), int(f[4])
+                nb = max(1, -(-(hdr + k + vlen) // 4096))
+                total += nb
+                for b in range(sec, sec + nb):
+                    if b < 16 or b >= blocks:
+                        why = why or "the extent of key %s leaves the data area (block %d)" % (f[0][:24], b)
+                    elif b in owner:
+                        why = why or "block %d belongs to two live extents" % b
+                    owner[b] = f[0]
+            free = set()
+            for t in [t for t in m.group(4).split(",") if t]:
+                a, c = [int(x) for x in t.split(":")]
+                for b in range(a, a + c):
+                    if b in owner or b in free or b < 16 or b >= blocks:
+                        why = why or "free run %d+%d overlaps a live extent / another run or leaves the data area at block %d" % (a, c, b)
+                    free.add(b)
+            lost = [b for b in range(16, blocks) if b not in owner and b not in free]
+            if lost:
+                why = why or "%d data blocks are neither live nor free (leaked), first %d" % (len(lost), lost[0])
+            if disk != total * 4096:
+                why = why or "disk usage counter %d != live total %d" % (disk, total * 4096)
+            if why:
+                bad += 1
+                if bad <= 2:
+                    kept = fmt_engine.save_case(ctx, op, "leftover%d" % bad)
+                    violation(ctx, "after recovering a device that holds two intact generations of a key: " + why,
+                              "# image (as it was before the open): see the path in the line below\n%s\n# the store's own report: %s\n" % (kept, im[:900]), tag="leftover")
+    ctx.log("leftover partition stage: %d recovered two-generation devices, %d with a broken partition" % (n, bad))
+    cov["two_generation_devices_partitioned"] = n
+    cov["two_generation_partition_failures"] = bad
+
+
 def run(ctx):
     return proto_check(ctx, MODULE, THEOREMS, ['partition', 'crash'], ['partitions=4', 'workloads=1', 'budget=6'], ['partitions=40', 'workloads=6', 'budget=20'], ['C05'], "block ownership / counters / reuse", [
         "kernel / file system: a write either fails or lands; a completed fsync makes every earlier write durable; a crash loses or tears (512 B) any subset of the un-synced writes only",
         "TornDetect: a torn journal slot / metadata block fails its checksum or equals the old or the new image (DESIGN.md section 2) — a hypothesis, not an axiom",
         "the abstract disk (Feox.Proto.Disk) is related to bytes by the Lean reader Feox.Fmt.recoverImage, itself compared with the real recovery on every crash image of this run",
         "faults are injected at the I/O hook (synchronous path; io_uring disabled), not in the kernel",
+        "recovered two-generation devices (fmt harness, built from real devices by copying a record with another timestamp / expiry / length, in either order): the partition is computed from the real store's own report (indexed extents, rebuilt free runs, usage counter)",
         "the standing invariants (ownership partition, counters, MarkOK after every acknowledged flush and reopen) are also evaluated by the kv harness on every store configuration and format version",
-    ], lambda op: op.startswith("fmt recover") or op.startswith("space "), pre_finish=lambda c, cov: kv_engine.inv_stage(c, cov))
+    ], lambda op: op.startswith("fmt recover") or op.startswith("space "), pre_finish=lambda c, cov: (kv_engine.inv_stage(c, cov), leftover_partition_stage(c, cov)))
